@@ -155,13 +155,57 @@ func cmdProp(args []string) int {
 		return 2
 	}
 	v.schedMode = prop == "C19"
+	v.replayTag = prop
 	if custom, ok := customChecks[prop]; ok {
 		return custom(v, prop, tier, seed, update)
 	}
 	if prop == "C16" {
 		return v.propCheck(prop, tier, seed, update, t0, globalWriteScan)
 	}
-	return v.propCheck(prop, tier, seed, update, t0, nil)
+	rcAlt := 0
+	if !update {
+		// the properties hold for every build of the package (C17 says so explicitly): when the module's file set
+		// depends on the build configuration, the cone is checked under each configuration that selects different files
+		base := strings.Join(fileSet(repoRoot, defaultCfg), "\n")
+		done := map[string]bool{base: true}
+		for _, cfg := range altConfigs {
+			fs := strings.Join(fileSet(repoRoot, cfg), "\n")
+			if done[fs] {
+				continue
+			}
+			done[fs] = true
+			curCfg = cfg
+			v2, err := load()
+			if err != nil {
+				fmt.Printf("VIOLATION property=%s replay=%s no-failing-input-found\n  the package cannot be analysed under build configuration %s: %v\n", prop, v.noteReplay(prop, "config:"+cfg.Name, err.Error()), cfg.Name, err)
+				rcAlt = 1
+				curCfg = defaultCfg
+				continue
+			}
+			v2.replayTag, v2.cfgLabel = prop, cfg.Name
+			fmt.Printf("-- build configuration %s selects a different set of files: checking it too\n", cfg.Name)
+			if rc := v2.propCheck(prop, "quick", seed, false, t0, nil); rc > rcAlt {
+				rcAlt = rc
+			}
+			v.altCfgs = append(v.altCfgs, cfg.Name)
+			curCfg = defaultCfg
+		}
+	}
+	rc := v.propCheck(prop, tier, seed, update, t0, nil)
+	if rcAlt > rc {
+		rc = rcAlt
+	}
+	return rc
+}
+
+// noteReplay writes a replay file that only carries a reason.
+func (v *Verifier) noteReplay(prop, name, why string) string {
+	dir := filepath.Join(verifRoot, "replays", prop)
+	os.MkdirAll(dir, 0o755)
+	path := filepath.Join(dir, sanitize(name)+".json")
+	b, _ := json.MarshalIndent(map[string]interface{}{"property": prop, "obligation": name, "reason": why, "found_by": "none"}, "", " ")
+	os.WriteFile(path, b, 0o644)
+	return path
 }
 
 type extraCheck func(v *Verifier) []*ObResult
@@ -312,7 +356,11 @@ func (v *Verifier) propCheck(prop, tier string, seed int, update bool, t0 time.T
 			suffix = " no-failing-input-found"
 		}
 		fmt.Printf("VIOLATION property=%s replay=%s%s\n", prop, rp, suffix)
-		fmt.Printf("  obligation %s: %s\n", vi.name, vi.why)
+		if v.cfgLabel != "" {
+			fmt.Printf("  obligation %s [build configuration %s]: %s\n", vi.name, v.cfgLabel, vi.why)
+		} else {
+			fmt.Printf("  obligation %s: %s\n", vi.name, vi.why)
+		}
 		rc = 1
 	}
 	if tier == "thorough" && rc == 0 && os.Getenv("VERIF_REPO") == "" {
@@ -329,6 +377,14 @@ func (v *Verifier) propCheck(prop, tier string, seed int, update bool, t0 time.T
 		v.specCheck = map[string]interface{}{"what": "the contract-level specification (expand_message_xmd, hash_to_field, SSWU, isogeny, group law) evaluated by the concrete evaluator on the RFC 9380 vectors of /repo/tests/h2c, without running the library", "vectors": n, "mismatches": bad}
 		if bad > 0 {
 			fmt.Println("ENGINE-ERROR: the specification in the contract files disagrees with an RFC 9380 test vector:", first)
+			rc = 2
+		}
+	}
+	if tier == "thorough" && os.Getenv("VERIF_REPO") == "" {
+		rep, bad := v.stdModelConformance(100, int64(seed)+3)
+		v.stdConf = rep
+		for _, b := range bad {
+			fmt.Println("ENGINE-ERROR: standard-library model conformance:", b)
 			rc = 2
 		}
 	}
@@ -383,7 +439,7 @@ func contains(xs []string, x string) bool {
 var customChecks = map[string]func(v *Verifier, prop, tier string, seed int, update bool) int{}
 
 func (v *Verifier) writeEvidence(prop, tier string, seed int, runs map[string]*FuncRun, names []string, results []*ObResult, engineErrs []string, nviol int, wall float64) {
-	if os.Getenv("VERIF_NOEVIDENCE") != "" {
+	if os.Getenv("VERIF_NOEVIDENCE") != "" || v.cfgLabel != "" {
 		return
 	}
 	nd := 0
@@ -441,6 +497,8 @@ func (v *Verifier) writeEvidence(prop, tier string, seed int, runs map[string]*F
 		"int/uint are 64-bit; memory exhaustion, timing and the scheduler are not modelled",
 		"pointer parameters alias only as whole objects of the same underlying type (no unsafe in callers); nested pointer fields are not aliased",
 		"lemmas marked 'assumed' are used without a machine-checked proof; 'lean-proved' ones are checked by Lean 4 + Mathlib (lemmas/build.sh)",
+		"unsigned machine words are modelled exactly (bit-vectors, or integers with explicit wrap variables); values of Go type int (lengths, indices, loop counters, 0/1 flags) are treated as mathematical integers, with a side obligation at every unsigned-to-int conversion",
+		"byte strings of unknown length are an uninterpreted sort with extensionality; SHA-256 is an uninterpreted function of the absorbed string",
 	}
 	for _, a := range v.specs.Assumes {
 		if strings.HasPrefix(a, "hash_no_x_collision") && !contains(names, "secp256k1.HashToGroup") {
@@ -462,11 +520,35 @@ func (v *Verifier) writeEvidence(prop, tier string, seed int, runs map[string]*F
 		},
 		"assumptions": assumptions,
 	}
+	{
+		// the slowest single queries, to show the margin to the time-out
+		rs := append([]*ObResult{}, results...)
+		sort.Slice(rs, func(i, j int) bool { return rs[i].MaxSec > rs[j].MaxSec })
+		var slow []map[string]interface{}
+		for i := 0; i < len(rs) && i < 5; i++ {
+			slow = append(slow, map[string]interface{}{"obligation": rs[i].Name, "slowest_sub_query_s": rs[i].MaxSec})
+		}
+		ev["coverage"].(map[string]interface{})["slowest_queries"] = slow
+	}
+	{
+		var names []string
+		for _, c := range altConfigs {
+			names = append(names, c.Name)
+		}
+		ev["coverage"].(map[string]interface{})["build_configurations"] = map[string]interface{}{
+			"analysed":          append([]string{defaultCfg.Name}, v.altCfgs...),
+			"compared_file_set": names,
+			"note":              "a configuration is analysed separately only when it selects a different set of non-test files than linux/amd64; on a tree without build constraints all configurations compile the same files",
+		}
+	}
 	if v.specCheck != nil {
 		ev["coverage"].(map[string]interface{})["spec_validation"] = v.specCheck
 	}
 	if v.sweep != nil {
 		ev["coverage"].(map[string]interface{})["bounded_sweep"] = v.sweep
+	}
+	if v.stdConf != nil {
+		ev["coverage"].(map[string]interface{})["stdlib_model_conformance"] = v.stdConf
 	}
 	if v.bounded != nil {
 		ev["coverage"].(map[string]interface{})["bounded_support"] = v.bounded
@@ -486,6 +568,10 @@ func (v *Verifier) writeReplay(prop, name, why string, o *Oblig, tier string, se
 	os.MkdirAll(dir, 0o755)
 	path := filepath.Join(dir, sanitize(name)+".json")
 	rep := map[string]interface{}{"property": prop, "obligation": name, "reason": why, "found_by": "none"}
+	if v.cfgLabel != "" {
+		path = filepath.Join(dir, sanitize(name+"@"+v.cfgLabel)+".json")
+		rep["build_configuration"] = v.cfgLabel
+	}
 	confirmed := false
 	if o == nil && strings.HasSuffix(name, "#*") {
 		// the function could not be analysed: search for a failing input of its (unchanged) contract on the real code
